@@ -1,4 +1,5 @@
 import BS.Properties.C06
+import BS.Properties.C06r
 #print axioms BS.Fault.attempt_not_ok
 #print axioms BS.Fault.attempt_fatal_iff
 #print axioms BS.Fault.attempt_tmp_lost
@@ -11,3 +12,6 @@ import BS.Properties.C06
 #print axioms BS.Fault.demand_persistent
 #print axioms BS.Fault.demand_transient
 #print axioms BS.Fault.demand_message
+#print axioms BS.Combine.retry_commits_exactly_one_attempt
+#print axioms BS.Combine.retry_folds_once
+#print axioms BS.Combine.unrepaired_counts_twice
